@@ -221,12 +221,43 @@ def run(P, R):
             ec.loc(), '_evaluate_conflict does not synthesise from the states of running_identifiers')
     rs_ = P.unit('ProcessStatus.running_state')
     rv = [v for v, f, n in returns(rs_) if v is not None]
-    ok = len(rv) == 1 and isinstance(rv[0], ast.Call) and call_text(rv[0]) == 'next' and \
-        isinstance(rv[0].args[0], ast.GeneratorExp) and \
-        ast.unparse(rv[0].args[0].generators[0].iter) == 'list(RUNNING_STATES) + [ProcessStates.STOPPING]' and \
-        [ast.unparse(i) for i in rv[0].args[0].generators[0].ifs] == ['state in states']
+    from .. import supstates as _ss
+    table = _ss.load()
+
+    def sequence(e, depth=0):
+        """the ProcessStates names an expression enumerates, in order (None when not understood)."""
+        if depth > 4:
+            return None
+        if isinstance(e, (ast.Tuple, ast.List)):
+            out = []
+            for x in e.elts:
+                s_ = sequence(x.value, depth + 1) if isinstance(x, ast.Starred) else \
+                    [x.attr] if isinstance(x, ast.Attribute) and ast.unparse(x.value) == 'ProcessStates' else None
+                if s_ is None:
+                    return None
+                out += s_
+            return out
+        if isinstance(e, ast.Call) and isinstance(e.func, ast.Name) and e.func.id in ('list', 'tuple') and len(e.args) == 1:
+            return sequence(e.args[0], depth + 1)
+        if isinstance(e, ast.BinOp) and isinstance(e.op, ast.Add):
+            l, r = sequence(e.left, depth + 1), sequence(e.right, depth + 1)
+            return None if l is None or r is None else l + r
+        if isinstance(e, ast.Name) and e.id == 'RUNNING_STATES':
+            return list(table['RUNNING_STATES'])
+        if isinstance(e, ast.Attribute) and ast.unparse(e.value) == 'ProcessStates':
+            return [e.attr]
+        nm = e.attr if isinstance(e, ast.Attribute) else e.id if isinstance(e, ast.Name) else None
+        if nm and nm in PS.cattrs and PS.cattrs[nm][1] is not None and \
+                (isinstance(e, ast.Name) or ast.unparse(e.value) in ('self', 'ProcessStatus', 'cls')):
+            return sequence(PS.cattrs[nm][1], depth + 1)
+        return None
+    order_ = sequence(rv[0].args[0].generators[0].iter) if len(rv) == 1 and isinstance(rv[0], ast.Call) and \
+        call_text(rv[0]) == 'next' and rv[0].args and isinstance(rv[0].args[0], ast.GeneratorExp) else None
+    ok = order_ == ['RUNNING', 'BACKOFF', 'STARTING', 'STOPPING'] and \
+        [ast.unparse(i) for i in rv[0].args[0].generators[0].ifs] == ['state in states'] and \
+        ast.unparse(rv[0].args[0].elt) == 'state'
     R.check(r4, ok, 'most advanced running state first (RUNNING, BACKOFF, STARTING, then STOPPING)', 'synth|running_state',
-            rs_.loc(), 'running_state is %s' % [ast.unparse(v) for v in rv])
+            rs_.loc(), 'running_state is %s (states enumerated in the order %s)' % ([ast.unparse(v) for v in rv], order_))
 
     # ---------------------------------------------------------------- R5
     r5 = R.rule('R5', 'forced-state arbitration', 'a forced state is applied unless newer information from the targeted '
